@@ -1,15 +1,50 @@
 /-
   C03 — protoclusters are the maximal cutoff-chains of a rule's anchoring genes.
--/
-import ASV.Model.Protocluster
-import ASV.Spec.Chains
-namespace ASV.C03
-open ASV ASV.Proto
+  Property theorems only; helper lemmas live in ASV/Proofs/{ChainSweep,ProtoLine,ChainLinked,ProtoRules}.lean.
 
-/-- a protocluster whose core is contained in the core of a cluster of a superior rule is redundant -/
-theorem covered_first (within : Lookup) (pc other : PC) (first last : Loc) (rest : List PC)
-    (h : locationContainsOther other.core pc.core = true) (red : Bool) :
-    redundantInner within pc first last red (other :: rest) = redundantInner within pc first last true rest := by
-  simp [redundantInner, h]
+  Guards.  `GeneOK len l`: the gene has at least one exon, its exons are in order (it does not
+  bridge the origin), every exon is non-empty and inside the record — what `Record.add_cds_feature`
+  / `ensure_valid_locations` give for every CDS of a linear record.
+  The chain relation is `nearB L c a b`: the two genes, read as spans, share a base or have fewer
+  than `c` bases strictly between them (the shorter way round on a ring).
+-/
+import ASV.Proofs.ChainLinked
+namespace ASV.C03
+open ASV ASV.Proto ASV.Chains ASV.ChainSweep
+
+/-- **Cores are the maximal chains (linear record).**  For every linear record, every cutoff ≥ 0 and
+    every non-empty set of anchoring genes, `find_protoclusters`' core computation succeeds and its
+    cores correspond one to one, in order, to groups of anchoring genes such that
+      * the groups partition the anchoring genes: every anchoring gene lies in exactly one group and
+        no group (hence no core) is without one;
+      * inside a group any two genes are linked by steps of the chain relation (neighbouring genes
+        separated by less than the cutoff);
+      * no gene of one group is within the cutoff of a gene of another (the groups are maximal);
+      * each core is a single span, the smallest one covering its group: it starts at the least start
+        and ends at the greatest end of the group's genes. -/
+theorem cores_are_chains_linear (r : Rec) (hlin : r.circular = false) (c : Int) (hc : 0 ≤ c)
+    (anchors : List Loc) (hne : anchors ≠ []) (hok : ∀ l ∈ anchors, GeneOK r.len l) :
+    ∃ (groups : List (List Loc)) (cores : List Loc),
+      findCores r c anchors = .ok cores ∧
+      IsChainPartition (fun a b => nearB 0 c a b = true) anchors groups ∧
+      Paired (fun core g => ∃ p, core = Loc.simple p ∧
+        (∀ m ∈ g, p.lo ≤ m.start ∧ m.end ≤ p.hi) ∧ (∃ m ∈ g, m.start = p.lo) ∧ (∃ m ∈ g, m.end = p.hi))
+        cores groups := by
+  obtain ⟨sorted, cores, hperm, hsorted, hfind, hmap, hsimple⟩ := findCores_line r hlin c hc anchors hne hok
+  obtain ⟨hpart, hinv⟩ := sweep_is_chain_partition r.len c hc anchors sorted hperm hsorted hok
+  refine ⟨(sweep Loc.start Loc.end c sorted).map Grp.members, cores, hfind, hpart, ?_⟩
+  refine Paired.map_right Grp.members ?_
+  refine (paired_of_map_eq cores (sweep Loc.start Loc.end c sorted) hmap hsimple hinv).imp ?_
+  rintro core g ⟨hiv, ⟨p, rfl⟩, hg⟩
+  simp only [ivOf, Loc.start, Loc.end, Prod.mk.injEq] at hiv
+  refine ⟨p, rfl, ?_, ?_, ?_⟩
+  · intro m hm
+    have h1 := hg.loMin m hm
+    have h2 := hg.hiMax m hm
+    omega
+  · obtain ⟨m, hm, e⟩ := hg.loAtt
+    exact ⟨m, hm, by omega⟩
+  · obtain ⟨m, hm, e⟩ := hg.hiAtt
+    exact ⟨m, hm, by omega⟩
 
 end ASV.C03
